@@ -94,6 +94,10 @@ type HTTP struct {
 	lastWrongPassword  time.Time
 	throttlingExponent int
 
+	// configSem serializes configuration updates, see applyConfig. It is a
+	// semaphore (not a mutex) because it is held while waiting for raft.
+	configSem chan struct{}
+
 	// XXX(1.0): delete this field
 	useProtobuf bool
 
@@ -140,6 +144,7 @@ func NewHTTP(ircServer *ircserver.IRCServer, raftNode *raft.Raft, ircStore *raft
 		raftDir:             raftDir,
 		peerAddr:            peerAddr,
 		getMessagesRequests: make(map[string]GetMessagesStats),
+		configSem:           make(chan struct{}, 1),
 		useProtobuf:         useProtobuf,
 		raftProtocolVersion: raftProtocolVersion,
 	}
